@@ -384,7 +384,9 @@ func (hs *clientHandshakeStateTLS13) processHelloRetryRequest() error {
 		}
 	}
 
-	if len(hello.pskIdentities) > 0 {
+	// [uTLS] a pre_shared_key extension with caller-supplied identities and binders
+	// (FakePreSharedKeyExtension) has no session behind it: there is nothing to recompute.
+	if len(hello.pskIdentities) > 0 && hs.session != nil {
 		pskSuite := cipherSuiteTLS13ByID(hs.session.cipherSuite)
 		if pskSuite == nil {
 			return c.sendAlert(alertInternalError)
